@@ -58,6 +58,10 @@ def run(rep, kf, tier, seed):
             o.id = "C10." + o.id[5:]
     from props.common import run_bounded
     run_bounded(rep, kf, "C10", ["model_properties", "equivalent_docs"], tier)
+    # parser side of "required": the allOf walk of _process_properties
+    import contracts.process_properties as cpp
+    from pyvc import engine_b as _eb
+    _eb.discharge(rep, kf, [cpp.composition_contract()], "C10", tier, seed)
     rep.trusted.extend(["CPython semantics of the supported subset as encoded in pyvc.symexec"]
                        + ["assumed library contract: " + t for t in libmodels.TRUSTED])
     rep.assumptions.append("document quantifier by schematic models/operations + frame argument (paper, DESIGN 2.4)")
